@@ -599,6 +599,10 @@ void ExpressionBuilder::expr_dot(const char* id)
         }
     } else if (type.is(PROCESS_VAR)) {
         symbol_t uid;
+        // only the binder of a dynamic quantifier names an instance
+        if (expr.get_kind() != IDENTIFIER) {
+            throw IsNotAStructError(expr.str(true));
+        }
         // temporarily set the frame to that of its associated template
         if (dynamicFrames.find(expr.get_symbol().get_name()) == dynamicFrames.end()) {
             throw UnknownIdentifierError(expr.get_symbol().get_name());
